@@ -272,10 +272,12 @@ TypeOK ==
 \* what is reachable is exactly what some environment binds
 ReachIsBound == reach = AllIds(bound)
 
-\* the key cross-check on the extracted table: a native that touches the OS
-\* must be declared not secure (a deleted `self.secure = False` breaks this)
+\* the key cross-check on the extracted table: a native the binder can bind
+\* and that touches the OS must be declared not secure - the attribute is all
+\* that stands between it and a secure program (a deleted `self.secure = False`
+\* breaks this).  `run` never passes the gate: RegisterRun's guard protects it.
 OsTouchingImpliesInsecure ==
-  LET bad == {id \in Ids : OsTouching(id) /\ SecureAttr(id)}
+  LET bad == {id \in BinderIds : OsTouching(id) /\ SecureAttr(id)}
   IN Holds("OsTouchingImpliesInsecure", bad = {}, SetToSeq(bad))
 
 \* in a secure interpreter nothing declared not secure is bound or reachable
